@@ -38,14 +38,20 @@ def sensitivity(argv) -> int:
                 print(f"{name}: PATCH DOES NOT APPLY ({p.stdout.strip()[:200]} {p.stderr.strip()[:200]})")
                 missed += 1
                 continue
+            caught_by = []
+            tails = []
             for cid in check_ids:
                 r = _run_check(cid, os.path.join(scratch, "src"))
                 sigs = [l.strip() for l in r.stdout.splitlines() if l.strip().startswith("signature:")]
                 verdict = {0: "MISSED", 1: "caught", 2: "harness-error"}.get(r.returncode, f"exit {r.returncode}")
                 print(f"{name}: {cid} {verdict} {sigs[:2]}")
-                if r.returncode != 1:
-                    missed += 1
-                    print(r.stdout[-600:])
+                if r.returncode == 1:
+                    caught_by.append(cid)
+                else:
+                    tails.append(r.stdout[-600:])
+            if not caught_by:  # a change named for several checks counts as caught when at least one of them reports it
+                missed += 1
+                print("\n".join(tails))
         finally:
             shutil.rmtree(scratch, ignore_errors=True)
     print(f"sensitivity: {len(patches)} mutants, {missed} not caught")
